@@ -5,16 +5,34 @@ quantify over every configuration (worker count, capacity, tensor sizes / object
 tensors, job structure) satisfying `WF` and over every reachable state, i.e. every schedule.
 Helper developments: Lemmas/Writer*.lean.
 -/
-import IrVerif.Lemmas.WriterLocks
+import IrVerif.Lemmas.WriterFiles
 namespace IrVerif.Writer
 
 theorem reachable_inv {cfg : Cfg} (wf : WF cfg) {s : State} (h : Reachable cfg s) :
-    SInv cfg s ∧ LInv cfg s := by
+    SInv cfg s ∧ LInv cfg s :=
+  ⟨(reachable_Inv wf h).s, (reachable_Inv wf h).l⟩
+
+theorem reachable_GInv {cfg : Cfg} (wf : WF cfg) {s : State} (h : Reachable cfg s) : GInv s := by
   induction h with
-  | init => exact ⟨SInv_init, LInv_init cfg⟩
-  | step l _ hst ih =>
-      have hr := stepRel_of_step hst
-      exact ⟨SInv_step wf ih.1 hr, LInv_step wf ih.1 ih.2 hr⟩
+  | init => exact GInv_init cfg
+  | step l hr hst ih => exact GInv_step wf (reachable_Inv wf hr).s ih (stepRel_of_step hst)
+
+theorem reachable_of_run {cfg : Cfg} : ∀ (ls : List Label) {s s' : State}, Reachable cfg s →
+    run cfg s ls = some s' → Reachable cfg s'
+  | [], s, s', hr, h => by simp [run] at h; subst h; exact hr
+  | l :: ls, s, s', hr, h => by
+      simp only [run] at h
+      split at h
+      · simp at h
+      · rename_i s1 hs1; exact reachable_of_run ls (.step l hr hs1) h
+
+/-- the executable well-formedness test used by the driver implies `WF` -/
+theorem wfb_sound {cfg : Cfg} (h : wfb cfg = true) : WF cfg := by
+  simp only [wfb, Bool.and_eq_true, decide_eq_true_eq, List.all_eq_true, List.mem_range] at h
+  obtain ⟨⟨⟨⟨h1, h2⟩, h3⟩, h4⟩, h5⟩ := h
+  exact ⟨h1, h2, fun j hj => (h3 j hj).1.1, fun j hj => (h3 j hj).1.2,
+    fun j i hj hi => (h3 j hj).2 i hi, fun i hi => (h4 i hi).1, fun i hi => (h4 i hi).2,
+    fun i k hik hk e => h5 k hk i hik e⟩
 
 /-- largest reservation of the configuration -/
 def maxSize (cfg : Cfg) : Nat := cfg.tensors.foldr (fun t m => max t.size m) 0
@@ -105,5 +123,141 @@ theorem C09_tensor_mutex {cfg : Cfg} (wf : WF cfg) {s : State} (h : Reachable cf
       simp at this ⊢; omega
   simp [fT, hp, hq, hobj.symm] at h2
   split at htl <;> omega
+
+
+/-- after a successful save every tensor has been written -/
+theorem finished_ok_all_done {cfg : Cfg} (wf : WF cfg) {s : State} (h : Reachable cfg s)
+    (hm : s.main = .finished false) : ∀ i, i < cfg.n → s.tasks[i]? = some (.done true) := by
+  have hI := reachable_Inv wf h
+  intro i hi
+  have hj := wf.job_lt i hi
+  have hall := hI.c.all (Or.inr hm)
+  have hin := (nodup_bounded cfg.nJobs s.collected hI.c.nodup hI.c.lt).2 hall (cfg.job i) hj
+  have hok := hI.c.ok (Or.inr (Or.inr hm)) (cfg.job i) hin
+  exact hI.j.ok_done (cfg.job i) hok i hi rfl
+
+/-- **C09_callback_once**: in every reachable state the callback log has no duplicates and contains
+    exactly the tensors whose callback step has been executed; after a successful save it contains
+    every tensor exactly once (after a failed save: exactly the tensors that were started, none of
+    the cancelled / skipped ones). -/
+theorem C09_callback_once {cfg : Cfg} (wf : WF cfg) {s : State} (h : Reachable cfg s) :
+    s.log.Nodup ∧ (∀ k, k ∈ s.log ↔ called s k) ∧
+    (s.main = .finished false → ∀ k, k ∈ s.log ↔ k < cfg.n) := by
+  have hg := reachable_GInv wf h
+  refine ⟨hg.nodup, hg.mem, fun hm k => ?_⟩
+  rw [hg.mem k]
+  constructor
+  · rintro ⟨p, hp, _⟩
+    rw [← (reachable_Inv wf h).s.tasks_len]; exact getElem?_lt hp
+  · intro hk
+    exact ⟨_, finished_ok_all_done wf h hm k hk, rfl⟩
+
+/-- **C09_deadlock_free**: every reachable state in which the save has not yet returned to the
+    caller has an enabled step (in particular every waiter whose predicate became true has been
+    notified: there is no lost wake-up). -/
+theorem C09_deadlock_free {cfg : Cfg} (wf : WF cfg) {s : State} (h : Reachable cfg s)
+    (hnt : terminal s = false) : ∃ l, (step cfg s l).isSome = true :=
+  progress wf (reachable_Inv wf h) hnt
+
+/-- **C09_terminates**: the variant strictly decreases on every step of every schedule. -/
+theorem C09_terminates {cfg : Cfg} (wf : WF cfg) {s s' : State} {l : Label} (h : Reachable cfg s)
+    (hst : step cfg s l = some s') : variant cfg s' < variant cfg s :=
+  variant_decreases wf (reachable_Inv wf h) (stepRel_of_step hst)
+
+/-- hence every schedule is finite: its length is bounded by the initial variant ... -/
+theorem C09_schedule_bounded {cfg : Cfg} (wf : WF cfg) : ∀ (ls : List Label) {s s' : State},
+    Reachable cfg s → run cfg s ls = some s' → ls.length + variant cfg s' ≤ variant cfg s
+  | [], s, s', _, h => by simp [run] at h; subst h; simp
+  | l :: ls, s, s', hr, h => by
+      simp only [run] at h
+      split at h
+      · simp at h
+      · rename_i s1 hs1
+        have h1 := C09_terminates wf hr hs1
+        have h2 := C09_schedule_bounded wf ls (.step l hr hs1) h
+        simp only [List.length_cons]; omega
+
+/-- ... and a schedule that cannot be extended has returned to the caller. -/
+theorem C09_maximal_terminal {cfg : Cfg} (wf : WF cfg) {ls : List Label} {s : State}
+    (h : run cfg (init cfg) ls = some s) (hmax : ∀ l, step cfg s l = none) : terminal s = true := by
+  cases ht : terminal s
+  · obtain ⟨l, hl⟩ := C09_deadlock_free wf (reachable_of_run ls .init h) ht
+    rw [hmax l] at hl; simp at hl
+  · rfl
+
+/-- **C09_error_quiescent**: when the save returns to the caller — in particular when the
+    exception of a failed tensor reaches the caller (`e = true`) — every pool thread has exited,
+    no tensor is in progress, the whole budget is released, the wait set is empty and the callback
+    lock and all tensor locks are free. -/
+theorem C09_error_quiescent {cfg : Cfg} (wf : WF cfg) {s : State} (h : Reachable cfg s) {e : Bool}
+    (hm : s.main = .finished e) :
+    s.exited = cfg.workers ∧ s.idle = 0 ∧
+    (∀ (i : Nat) (p : Pc), s.tasks[i]? = some p → act p = false) ∧
+    s.inFlight = 0 ∧ s.oversized = false ∧ s.cbLock = false ∧
+    (∀ o, o < cfg.nObjs → s.tLocks.getD o false = false) := by
+  have hI := reachable_Inv wf h
+  have hex := hI.p.fin_exit e hm
+  have hpool := hI.p.pool
+  have hna := no_act_of_wsum (s := s) (by omega)
+  obtain ⟨h1, h2, h3, h4⟩ := quiet_of_no_act hI.l hna
+  exact ⟨hex, by omega, hna, h1, h2, h3, h4⟩
+
+theorem layoutb_sound {cfg : Cfg} (h : layoutb cfg = true) : Layout cfg := by
+  simp only [layoutb, Bool.and_eq_true, List.all_eq_true, List.mem_range, decide_eq_true_eq] at h
+  exact ⟨h.1, fun i j hi hj => h.2 i hi j hj⟩
+
+theorem reachable_FInv {cfg : Cfg} (wf : WF cfg) (lay : Layout cfg) {s : State}
+    (h : Reachable cfg s) : FInv cfg s := by
+  induction h with
+  | init => exact FInv_init cfg
+  | step l hr hst ih => exact FInv_step wf lay (reachable_Inv wf hr).s ih (stepRel_of_step hst)
+
+/-- **C09_bytes_serial**: whenever a save returns normally — after any schedule — every file is
+    byte-identical to the one the serial save produces (tensor ranges pairwise disjoint, which is
+    what C07 proves of the computed offsets). -/
+theorem C09_bytes_serial {cfg : Cfg} (wf : WF cfg) (lay : Layout cfg) {s : State}
+    (h : Reachable cfg s) (hm : s.main = .finished false) : s.files = serialFiles cfg := by
+  have hf := reachable_FInv wf lay h
+  have hall := finished_ok_all_done wf h hm
+  have hlen := (reachable_Inv wf h).s.tasks_len
+  have hser := serial_spec lay cfg.n (Nat.le_refl _)
+  refine Spec_ext (Spec_congr (fun k => ?_) hf) hser
+  constructor
+  · rintro ⟨p, hp, _⟩; rw [← hlen]; exact getElem?_lt hp
+  · intro hk; exact ⟨_, hall k hk, rfl⟩
+
+/-! ### non-vacuity -/
+
+/-- 2 workers, capacity 2, two oversized tensors (3 > 2) -/
+def exCfg (fail0 : Bool) : Cfg where
+  workers := 2
+  capacity := 2
+  nObjs := 2
+  mode := .parallel
+  tensors := [⟨0, 3, fail0, false, 0, 0, 0, [1, 1, 1]⟩, ⟨1, 3, false, false, 1, 0, 3, [2, 2, 2]⟩]
+  jobStarts := [0, 1]
+  files := [[0, 0, 0, 0, 0, 0]]
+
+example : Layout (exCfg false) := layoutb_sound (by decide)
+example : WF (exCfg false) := wfb_sound (by decide)
+example : WF (exCfg true) := wfb_sound (by decide)
+
+/-- a successful complete schedule in which tensor 1 waits for the oversized slot and is woken -/
+example : (run (exCfg false) (init (exCfg false))
+    [.main 0, .main 0, .take, .take, .task 0, .task 0, .task 0, .task 0, .task 0, .task 1, .task 1,
+     .task 1, .task 1, .task 0, .main 0, .task 1, .task 1, .task 1, .main 1, .exit, .exit,
+     .main 0]).map (fun s => (s.main, s.log, s.files)) =
+      some (.finished false, [0, 1], [[1, 1, 1, 2, 2, 2]]) := by decide
+
+/-- the waiting state is reachable (hypothesis of `WInv` is not vacuous) -/
+example : (run (exCfg false) (init (exCfg false))
+    [.main 0, .main 0, .take, .take, .task 0, .task 0, .task 0, .task 0, .task 1, .task 1,
+     .task 1, .task 1]).map (fun s => s.tasks) = some [.write, .waiting] := by decide
+
+/-- a failing complete schedule: the exception reaches the caller -/
+example : (run (exCfg true) (init (exCfg true))
+    [.main 0, .main 0, .take, .take, .task 0, .task 0, .task 0, .task 1, .task 1, .task 1, .task 1,
+     .task 0, .task 1, .task 1, .main 1, .task 0, .task 0, .task 0, .main 0, .exit, .exit,
+     .main 0]).map (fun s => s.main) = some (.finished true) := by decide
 
 end IrVerif.Writer
